@@ -217,6 +217,14 @@ class ClockPlugin(Plugin):
                     d = g(list(range(0, now + 1)))
                     if not (a == b == d and a == list(reversed(c))) and not any(isinstance(x, float) and x != x for x in a):
                         mon.viol("C06", "getter_forms_disagree", {"market": m.name, "getter": g.__name__, "now": now})
+                    elif not any(isinstance(x, float) and x != x for x in b):
+                        # a caller that rewrites in place the list it was handed (normalising a history, say) must not
+                        # reach the market's records: the no-argument form read again gives the same values
+                        saved = list(b)
+                        for i in range(len(b)):
+                            b[i] = -1
+                        if g(None) != saved:
+                            mon.viol("C06", "history_changed_through_returned_list", {"market": m.name, "getter": g.__name__, "now": now})
                 except Exception as e:
                     mon.viol("C06", "present_refused", {"market": m.name, "getter": g.__name__, "now": now, "exc": repr(e)})
             mon.stat("future_probes")
